@@ -17,6 +17,21 @@ func vTableKeys() []string {
 // HTableProbe (C20): every entry of the shipped tables is returned, with its own classification, by the real
 // look-up code applied to the entry's own spelling (executed in the engine on the tables built by the executed init).
 func HTableProbe() {
+	// the tables must still be intact after the detectors have run (lazy initialisation that rewrites a table shows here)
+	IsXSS("<set attributeName=fill to=red>")
+	IsXSS("<a href=javascript:alert(1) style=x onclick=y>")
+	IsXSS("x' onerror=alert(1) xmlns=a")
+	IsSQLi("1 union select 1,2 -- ")
+	IsSQLi("x' or 'a' like 'a'/*")
+	for i := 0; i < len(vBaseBlacks); i++ {
+		vAssert(isBlackAttr(vBaseBlacks[i].name) == vBaseBlacks[i].typ, "baseline black attribute still classified as in the baseline after the detectors ran")
+	}
+	for i := 0; i < len(vBaseTags); i++ {
+		vAssert(isBlackTag(vBaseTags[i]+"x"[:0]), "baseline black tag still recognised after the detectors ran")
+	}
+	for i := 0; i < len(vBaseEvents); i++ {
+		vAssert(isBlackAttr("on"+vBaseEvents[i]) == attributeTypeBlack, "baseline event handler still recognised after the detectors ran")
+	}
 	keys := vTableKeys()
 	for i := 0; i < len(keys); i++ {
 		k := keys[i]
